@@ -122,8 +122,8 @@ CHECKS = {
         text=("Coq theorems on a lowering-trace model of a[i] and #unwrap: an out-of-range index yields only descriptor loads, the message and "
               "exit 1 (no element access, before the assigned value is evaluated); an in-range index accesses exactly one element at "
               "base+i*stride, at any nesting depth (induction); wrong-variant #unwrap aborts; literal out-of-range rejected iff idx>=size. "
-              "Full statement refuted by witnesses (u128 index truncated, zero-sized elements, 8-bit tag overflow) and proved outside those "
-              "classes. End-to-end programs with run-time indices 0..len+4, boundary values, unwraps of every sum kind, literal indices."),
+              "For the repaired code the index theorems hold with no excluded class (C10_fixed_full: every index type incl. u128, every element type "
+              "incl. zero-sized); the #unwrap statement stays refuted for discriminants above 255 (8-bit tag overflow). End-to-end programs with run-time indices 0..len+4, boundary values, unwraps of every sum kind, literal indices."),
         design_ref="DESIGN.md section 6 C10, section 10.7",
         note=TB + "a[i] += v, indexing of globals and inside comptime are not modelled; a reordering of load/store before the check is only visible to the trace theorem, not end to end. Axioms: none.",
         technique="Coq proof on a lowering-trace model + end-to-end correspondence + extracted value-level spec"),
@@ -131,8 +131,8 @@ CHECKS = {
         category="proof",
         text=("Coq theorems: automatically assigned discriminants are pairwise distinct for every enum (two-pass invariant, no bound); the switch "
               "checker accepts iff arms are variants, duplicate-free and (exhaustive or default); dispatch runs exactly the arm of the value's "
-              "variant with the payload bound, else the default. Refuted with witnesses and proved outside them: discriminants above 255 "
-              "(tag overflow), switches on distinct/variant-wrapped sums (unreachable!), three codegen asserts. Front-end stream (4k switches: "
+              "variant with the payload bound, else the default. For the repaired code the checker theorems hold for every scrutinee incl. distinct/variant wrappers (C11_fx_check_accepts_iff, "
+              "C11_fx_check_no_crash_full); still refuted and listed as findings: discriminants above 255 (tag overflow) and the ?^T default-arm assert. Front-end stream (4k switches: "
               "diagnostic kind or panic vs model) and end-to-end stream (~640 compiled switches over all variants)."),
         design_ref="DESIGN.md section 6 C11, section 10.7",
         note=TB + "MultipleDefaultArms / RegularArmAfterDefault are compared against a Python spec, arm body types are not modelled, types are abstracted to atoms. Axioms: none.",
@@ -166,7 +166,7 @@ CHECKS = {
         text=("Coq theorems with the operand VALUE universally quantified (Z): the modelled instruction selection of compile_num_binary / unary "
               "ops / cast_num / get_final_ty / Ty::max, interpreted over Common/Bits.v, meets the two's-complement specification for all 14 "
               "integer-like types and 18 operators (128-bit / and % excepted: refuted, does not compile), the full 14x14 integer cast matrix "
-              "outside one refuted class (signed source to wider unsigned target zero-extends), comptime re-materialisation of integers, and "
+              "with no excluded class for the repaired code (C08_cast_full_fixed; the pre-fix zero-extension defect is kept as refuted history), comptime re-materialisation of integers, and "
               "int<->float casts outside two refuted classes (Flocq). Real capy runs 200-triple programs at run time AND in comptime; the "
               "extracted model predicts and the extracted spec judges every printed bit pattern."),
         design_ref="DESIGN.md section 6 C08, section 10.9",
@@ -177,8 +177,8 @@ CHECKS = {
         text=("Coq theorems about the model of literal lowering (decimal with _ and e, hex, bin, char/string escapes), acceptance "
               "(get_max_int_size, expect_match shortcut) and defaulting (finalize_int): checked left-to-right parsing returns the positional "
               "value iff it fits u64 (induction), escapes denote their characters, a literal is accepted iff it fits its type and keeps its "
-              "value, outside refuted classes (i128 rejects 2^63, isize has no limit, unannotated literals above i32::MAX are compiled as "
-              "i32, 0e20 rejected). Front-end harness for acceptance/escapes (11k spellings), real capy for printed values."),
+              "value, in full for the repaired code (C09_lower_dec_full_fixed, C09_accept_full_fixed; i128/isize limits and 0e20 were repaired), outside one "
+              "remaining refuted class (unannotated literals above i32::MAX are compiled as i32). Front-end harness for acceptance/escapes (11k spellings), real capy for printed values."),
         design_ref="DESIGN.md section 6 C09, section 10.9",
         note=TB + "Float literals and global literals are checked against an exact-rational / observed-rule oracle only (no Coq model); f32 double rounding found there. Axioms: none.",
         technique="Coq proof (induction over digit lists) + front-end correspondence + end-to-end printed values"),
@@ -191,7 +191,7 @@ CHECKS = {
               "tighter with the exact code-derived prefix-vs-postfix relation. Real lexer+parser+ast accessors vs model vs tree on all trees "
               "to depth 3 (reduced operator set), all operator pairs, sampled depth 5, token mutants."),
         design_ref="DESIGN.md section 6 C23/C24, section 10.10",
-        note=TB + "Token-kind level; constructs outside the expression fragment return Unsupported in the model. Axioms: none.",
+        note=TB + "Token-kind level; constructs outside the expression fragment return Unsupported in the model; the trivia defect C24-1 was repaired in /repo (d7fa2e4). Axioms: none.",
         technique="Coq proof (print/parse round trip by strong induction) + differential correspondence through the ast crate"),
     "C23": dict(
         category="proof",
@@ -203,7 +203,7 @@ CHECKS = {
               "tree text == input, error ranges in range) over exhaustive <=4-token sequences, soups, fixtures/examples/core mutations, "
               "nesting to 200; the real event lists are replayed through the extracted Sink model."),
         design_ref="DESIGN.md section 6 C23/C24, section 10.10",
-        note=TB + "Four genuine parser defects are known findings (double bump over trivia panics; three never-terminating recovery loops, surfaced as VERIF-NO-PROGRESS panics by a cfg hook). Axioms: none.",
+        note=TB + "The whole grammar (31 functions) is transcribed in Model/Grammar.v with cursor monotonicity, error ranges and well-bracketedness proved for both entry points and real event lists compared on every run; parse_fuel_linear is NOT proved. Four genuine parser defects (double bump over trivia; three never-terminating recovery loops) were repaired in /repo (d7fa2e4, 3c3ff74); the model variant in force mirrors the repaired code. Axioms: none.",
         technique="Coq proof of the event/sink layer (partial) + verified checkers on the real parser's output + watchdog oracle"),
     "C07": dict(
         category="proof",
@@ -240,18 +240,18 @@ CHECKS = {
     "C12": dict(
         category="proof",
         text=("Coq theorems over ALL types of the Ty syntax (no pool, no bound) about the arm-for-arm model of Ty::can_fit_into / "
-              "can_cast_to / is_weak_replaceable_by / max: fit is reflexive, fit implies cast, weak-replaceable implies fit outside one "
-              "narrow refuted class (witness = the compiler's own assert panic), max never panics; the two max laws (accepts both, "
-              "order-independent) are refuted at witnesses and otherwise evaluated on the real implementation for every ordered pair of a "
-              "600-type universe. Model tied to the real crate by 360k pairs x 11 functions + 2000 front-end programs per run."),
+              "can_cast_to / is_weak_replaceable_by / max: fit is reflexive, fit implies cast, weak-replaceable implies fit in full for the "
+              "repaired code (C12_weak_implies_fit_full_fixed), max never panics; max accepts both operands and is order-independent outside "
+              "exactly defined classes (boolean classifiers shared by theorems and run-time oracle; the distinct-arm class is empty for the "
+              "repaired code, the zero-sized-under-sum class C12-3 stays open). Model tied to the real crate by 360k ordered pairs x 11 "
+              "functions + 4140 front-end programs per run; every law is also evaluated on the implementation's own answers."),
         design_ref="DESIGN.md section 6 C12/C13, section 10.3",
         note=TB + "The re-inference pass (reinfer_expr) is not modelled; its panic is reported as a failing input. Intern equality = structural equality and FxHashMap = last-wins association list are assumed. Axioms: none.",
         technique="Coq proof (nested structural induction over types) + differential correspondence + law oracle on the implementation"),
     "C13": dict(
         category="proof",
         text=("Coq theorem over ALL types: a nominal value (distinct, variant, named struct) accepted by the modelled can_fit_into never lands "
-              "on a different nominal type nor on its own underlying type, outside two refuted narrow classes (own distinct wrapper; "
-              "same-shape struct into variant payload); casts distinct<->underlying accepted both ways. Same correspondence streams as C12 "
+              "on a different nominal type nor on its own underlying type, outside one refuted narrow class (own distinct wrapper, C13-1; the same-shape-struct-into-variant-payload class is empty for the repaired code); casts distinct<->underlying accepted both ways. Same correspondence streams as C12 "
               "plus a program-level acceptance matrix (annotation, argument, return, if/else both orders) against the ExpectMatch model."),
         design_ref="DESIGN.md section 6 C12/C13, section 10.3",
         note=TB + "Value preservation of distinct<->underlying casts is a lowering fact covered by C08. Assignment and binary-operand positions are not generated at program level. Axioms: none.",
@@ -362,7 +362,7 @@ def main():
         f.write("\n")
 
 
-HOOK_COMMITS = ["1c1e07d", "c523f62", "efaef7a", "9e918b4", "c8b1eb9", "a81023b"]
+HOOK_COMMITS = ["1c1e07d", "c523f62", "efaef7a", "9e918b4", "c8b1eb9", "a81023b", "f65f0bd"]
 
 if __name__ == "__main__":
     main()
